@@ -257,6 +257,12 @@ def defs(A, W, D, DW, l1, l2, directed, N):
     s = Pc.sum(axis=1)
     out["internal_closeness"] = np.where(s != 0, (n1 - 1) / np.where(
         s != 0, s, 1), 0.0)
+    # link lengths from a link attribute (zero-length links included): the
+    # mean over the connected pairs of distinct nodes, whatever their length
+    Piw = DW[np.ix_(l1, l1)]
+    finw = np.isfinite(Piw) & off
+    if finw.any():
+        out["internal_average_path_length_w"] = Piw[finw].sum() / finw.sum()
     return out
 
 
@@ -297,6 +303,8 @@ CALLS = {
     "cross_closeness_w": lambda n, a, b: n.cross_closeness(a, b, "lw"),
     "internal_average_path_length":
         lambda n, a, b: n.internal_average_path_length(a),
+    "internal_average_path_length_w":
+        lambda n, a, b: n.internal_average_path_length(a, "lw"),
     "internal_closeness": lambda n, a, b: n.internal_closeness(a),
 }
 TWINS = [("cross_transitivity", "cross_transitivity_sparse"),
